@@ -1,24 +1,32 @@
-import ColoVerif.Proofs.LegalizeFrame
+import ColoVerif.Proofs.LegalizeLegalCircuit
+import ColoVerif.Proofs.LegalizeTrivialTop
 import ColoVerif.Model.LegacyLegalize
 /-
 C01 — legalization returns a legal placement or fails loudly.
 
 All statements are about the definitions the driver `drv_C01` executes (`Legalize.legalizeWith`,
 instantiated by the driver with the binary32 rounding `f32`; the theorems hold for every rounding
-function, legality does not depend on the ordering key).
+function, legality does not depend on the ordering key).  Helper lemmas:
+`Proofs/LegalizeLegal{Rows,Tetris,Abacus,Base,Circuit}.lean` (legality), `Proofs/LegalizeFrame.lean`.
 -/
 namespace ColoVerif.C01
 open ColoVerif ColoVerif.Legalize
 
-/-- the property's domain: uniform positive row height, pairwise disjoint rows, movable cells of
-positive placed width whose placed height is a positive multiple of the row height, polarised
-cells unturned -/
+/-- The property's domain, as a decidable predicate.  With `H` the uniform row height
+(`Circuit::rowHeight`, which exists and is positive): every movable cell has a positive placed
+width and a placed height that is a positive multiple of `H`, and is unturned if it has a row
+polarity; the rows are pairwise disjoint, have a non-empty x-range and an unturned (N/S/FN/FS, or
+no) orientation.  Fixed cells are unrestricted.  (`dom_spelled` reads it with `∃ H`, `∃ k`.) -/
 def Dom (c : Circuit) : Prop :=
-  (∃ H, 0 < H ∧ Circuit.rowHeight c = some H ∧
-    ∀ cl ∈ c.cells, cl.fixed = false → 0 < cl.placedWidth ∧ ∃ k : Int, 0 < k ∧ cl.placedHeight = k * H) ∧
+  0 < (Circuit.rowHeight c).getD 0 ∧
+  (∀ cl ∈ c.cells, cl.fixed = false →
+    0 < cl.placedWidth ∧ 0 < cl.placedHeight ∧ cl.placedHeight % (Circuit.rowHeight c).getD 0 = 0 ∧
+    (cl.pol ≠ Polarity.ANY → cl.orient.isTurn = false)) ∧
   c.rows.Pairwise (fun r s => r.rect.intersects s.rect = false) ∧
-  (∀ r ∈ c.rows, r.rect.minX < r.rect.maxX) ∧
-  (∀ cl ∈ c.cells, cl.fixed = false → cl.pol ≠ Polarity.ANY → cl.orient.isTurn = false)
+  (∀ r ∈ c.rows, r.rect.minX < r.rect.maxX ∧ r.orient.isTurn = false)
+
+instance (c : Circuit) : Decidable (Dom c) :=
+  inferInstanceAs (Decidable (_ ∧ _ ∧ _ ∧ _))
 
 /-- the statement's legality, spelled out over `computeRows`: bottom edge on a row boundary, every
 row-high strip inside one free segment, no two movable cells intersect -/
@@ -28,89 +36,60 @@ def Legal (c : Circuit) : Prop :=
       ∃ r ∈ c.computeRows, r.rect.minY = cl.y + k * H ∧ r.rect.minX ≤ cl.x ∧ cl.x + cl.placedWidth ≤ r.rect.maxX) ∧
   (c.cells.filter fun cl => !cl.fixed).Pairwise fun a b => a.placement.intersects b.placement = false
 
-/-- C01, first clause, full strength (not proved for all inputs; see `legalize_legal_partial`) -/
-def legalize_legal_full_statement : Prop :=
-  ∀ (rnd : Rat → Rat) (p : Params) (c c' : Circuit), Dom c → legalizeWith rnd p c = .ok c' → Legal c'
+-- the helper files prove the theorem for verbatim copies of the two definitions
+example : Dom = DomL := rfl
+example : Legal = LegalL := rfl
 
-/-- **Legality of the Abacus pass (partial).**  Whenever `AbacusLegalizer` (constructed on `rows`,
-run on cells of positive width) returns — i.e. its own `check()` did not throw — the final
-`rowToCells_` lists only valid cell indices, every listed cell lies inside its row segment
-(`minX ≤ x`, `x + w ≤ maxX`), and the cells of one segment are pairwise in order and
-non-overlapping (`x₁ + w₁ ≤ x₂` for every earlier/later pair, not only neighbours).
+/-- **C01, first clause (full).**  For every circuit of the domain, every rounding function of the
+ordering key (in particular the compiled binary32 one) and all parameters: whenever legalization
+returns normally, the returned circuit is legal — for every movable cell and every row-high strip
+`k` of it (`0 ≤ k`, `k·H` below its placed height) there is a free row segment of
+`computeRows` of the *returned* circuit (the rows minus the fixed obstructions) that starts at the
+strip's bottom edge `y + k·H` and contains the strip's x-range; and no two movable cells intersect.
 
-Missing for `legalize_legal_full_statement`: (i) every *placed* cell is listed in exactly one
-segment and has that segment's `minY` (the `rowToCells_` lists are duplicate-free and
-`writeRows` writes each cell once); (ii) the Tetris pass (strips of a multi-row cell inside one
-segment per level, `rowFreePos_` keeps macros apart); (iii) the segments handed to Abacus are
-`remainingRows` = rows minus obstructions minus placed macros, pairwise disjoint
-(`Proofs/Freespace.lean` has the interval facts: `freeIntervals_inside/_pairwise/_misses`);
-(iv) the index plumbing of `importLegalization`/`exportPlacement`.  (i)–(iv) are supported by the
-C01 correspondence stream and the independent legality oracle on the real code, not by proof. -/
-theorem legalize_legal_partial (rows : List Row) (cells : List LCell) (pos : List Pos)
-    (hw : ∀ c ∈ cells, 0 < c.w) (h : abacusRun rows cells = .ok pos) :
-    ∀ (k : Nat) (r : Row) (rc : List Nat), (sortRows rows)[k]? = some r →
-      (abacusLoop (Abacus.init rows) 0 cells).1.rowCells[k]? = some rc →
-      (∀ c ∈ rc, c < cells.length ∧ r.rect.minX ≤ (posAt pos c).x ∧
-          (posAt pos c).x + (cellAt cells c).w ≤ r.rect.maxX) ∧
-      rc.Pairwise fun c1 c2 => (posAt pos c1).x + (cellAt cells c1).w ≤ (posAt pos c2).x := by
-  intro k r rc hr hrc
-  have hrows : (abacusLoop (Abacus.init rows) 0 cells).1.rows = sortRows rows := by
-    rw [abacusLoop_rows]; rfl
-  have hmem : ∀ d ∈ rc, d < cells.length := by
-    intro d hd
-    rcases abacusLoop_mem cells (Abacus.init rows) 0 rc (List.mem_of_getElem? hrc) d hd with h | ⟨rc0, h0, hd0⟩
-    · omega
-    · simp only [Abacus.init, List.mem_map] at h0
-      obtain ⟨_, _, rfl⟩ := h0
-      simp at hd0
-  have hwd : ∀ d ∈ rc, 0 < (cellAt cells d).w := by
-    intro d hd
-    have hl := hmem d hd
-    apply hw
-    simp [cellAt, List.getD_eq_getElem?_getD, List.getElem?_eq_getElem hl]
-  unfold abacusRun at h
-  generalize hA : abacusLoop (Abacus.init rows) 0 cells = A at h hrc hrows
-  obtain ⟨a, oks⟩ := A
-  simp only at h hrc hrows
-  generalize hP : writeRows a.rows cells 0 a.rowCells a.legs (cells.map initPos) = P at h
-  cases hck : abacusCheck a.rows cells a.rowCells P with
-  | error e => rw [hck] at h; simp at h
-  | ok u =>
-    rw [hck] at h
-    injection h with h
-    subst h
-    unfold abacusCheck at hck
-    split at hck
-    · simp at hck
-    · split at hck
-      · simp at hck
-      · rename_i hz
-        split at hck
-        · simp at hck
-        · rename_i ho
-          have hz' : zipAll (rowBoundsOk cells P) a.rows a.rowCells = true := by
-            cases hq : zipAll (rowBoundsOk cells P) a.rows a.rowCells
-            · simp [hq] at hz
-            · rfl
-          have ho' : a.rowCells.all (rowOrderOk cells P) = true := by
-            cases hq : a.rowCells.all (rowOrderOk cells P)
-            · simp [hq] at ho
-            · rfl
-          rw [hrows] at hz'
-          have hb := zipAll_get _ _ _ hz' k r rc hr hrc
-          have hord : rowOrderOk cells P rc = true := by
-            rw [List.all_eq_true] at ho'
-            exact ho' rc (List.mem_of_getElem? hrc)
-          refine ⟨?_, rowOrderOk_pairwise cells P rc hwd hord⟩
-          intro c hc
-          simp only [rowBoundsOk, List.all_eq_true] at hb
-          have := hb c hc
-          simp only [Bool.and_eq_true, Bool.not_eq_true', decide_eq_false_iff_not, Int.not_lt] at this
-          exact ⟨hmem c hc, this.1, this.2⟩
+Proof (Proofs/LegalizeLegal*.lean): (i) `importLegalization`/`writeRows`/`exportPlacement`
+bookkeeping by "last writer" characterisations; (ii) `remainingRows` = free space of the rows minus
+the placed macros, pairwise disjoint pieces of rows that miss every macro (C15's interval lemmas);
+(iii) the Tetris invariant — `rowFreePos_` of a segment is right of every strip placed so far that
+meets it, and `getPossibleIntervals` only offers positions whose strip lies in
+`[rowFreePos_, maxX − w]` of one visited segment per level; (iv) Abacus: its own `check()`, which the
+model executes, certifies bounds and order per segment; segments are disjoint; (v) export keeps
+the turn status of every cell (so placed sizes are the ones legalized) and leaves `computeRows`
+unchanged. -/
+theorem legalize_legal (rnd : Rat → Rat) (p : Params) (c c' : Circuit) (hd : Dom c)
+    (h : legalizeWith rnd p c = .ok c') : Legal c' :=
+  legalizeWith_legal rnd p c c' hd h
 
-/-- non-vacuity: a two-cell conflict in one segment goes through `abacusRun` -/
-example : (abacusRun [⟨⟨0, 10, 0, 2⟩, .N⟩] [⟨4, 2, .ANY, 0, 0, .N⟩, ⟨3, 2, .ANY, 2, 0, .N⟩]).toOption.map (·.map (·.x)) = some [0, 4] := by
-  decide +kernel
+/-- the same for `Circuit::legalize` as compiled (binary32 ordering key) -/
+theorem legalize_legal_compiled (p : Params) (c c' : Circuit) (hd : Dom c) (h : legalize p c = .ok c') :
+    Legal c' :=
+  legalizeWith_legal f32 p c c' hd h
+
+/-- the domain read as in the property's quantifier: a uniform positive row height `H`, movable
+cells of positive placed width whose placed height is `k·H` with `k > 0`, pairwise disjoint
+non-empty rows, polarised cells unturned — and unturned row orientations -/
+theorem dom_spelled (c : Circuit) (hd : Dom c) :
+    (∃ H, 0 < H ∧ Circuit.rowHeight c = some H ∧
+      ∀ cl ∈ c.cells, cl.fixed = false → 0 < cl.placedWidth ∧ ∃ k : Int, 0 < k ∧ cl.placedHeight = k * H) ∧
+    c.rows.Pairwise (fun r s => r.rect.intersects s.rect = false) ∧
+    (∀ r ∈ c.rows, r.rect.minX < r.rect.maxX ∧ r.orient.isTurn = false) ∧
+    (∀ cl ∈ c.cells, cl.fixed = false → cl.pol ≠ Polarity.ANY → cl.orient.isTurn = false) := by
+  obtain ⟨h1, h2, _, h4⟩ := domL_spelled c hd
+  exact ⟨h1, h2, hd.2.2.2, h4⟩
+
+/-- non-vacuity of `legalize_legal`: a circuit of the domain — two rows of height 2, the lower one
+split by a fixed obstruction, a movable two-row cell, two row-high cells (one with row polarity),
+all overlapping at the origin — on which legalization returns normally and moves every cell -/
+def exampleCircuit : Circuit :=
+  { cells := [⟨3, 4, 0, 0, .N, false, false, .ANY⟩, ⟨2, 2, 0, 0, .N, false, false, .ANY⟩,
+              ⟨2, 2, 0, 0, .FN, false, false, .SAME⟩, ⟨1, 2, 4, 0, .N, true, true, .ANY⟩],
+    nets := [],
+    rows := [⟨⟨0, 10, 0, 2⟩, .N⟩, ⟨⟨0, 10, 2, 4⟩, .FS⟩] }
+
+example : Dom exampleCircuit := by decide
+example : ((legalize LegacyLegalize.defaultParams exampleCircuit).toOption.map
+    fun c' => c'.cells.map fun cl => (cl.x, cl.y, cl.orient)) =
+    some [(0, 0, .N), (5, 0, .N), (3, 2, .FS), (4, 0, .N)] := by decide +kernel
 
 /-- **Error or all placed.**  (1) If `legalize` returns a circuit, the parameter check passed, both
 passes ran, *every* movable cell was placed, and the result is `exportPlacement` of that state —
@@ -137,28 +116,104 @@ theorem legalize_error_or_all (rnd : Rat → Rat) (p : Params) (c : Circuit) :
   obtain ⟨_, b1, b2, _, _, _, rfl⟩ := legalizeWith_ok rnd p c c' h
   exact ⟨rfl, rfl, exportCells_frame _ _⟩
 
-/-- C01, third clause, full strength (not proved; see `legalize_trivial_success_partial`):
-row-high cells of polarity ANY whose total width is at most the total free segment width less
-one maximum cell width per segment are always legalized. -/
-def legalize_trivial_success_full_statement : Prop :=
-  ∀ (rnd : Rat → Rat) (p : Params) (c : Circuit), p.check = true → Dom c →
-    (∀ cl ∈ c.cells, cl.fixed = false →
-      cl.pol = Polarity.ANY ∧ cl.orient ≠ Orient.INVALID ∧ Circuit.rowHeight c = some cl.placedHeight) →
-    (∀ W, (∀ cl ∈ c.cells, cl.fixed = false → cl.placedWidth ≤ W) →
-      (((c.cells.filter fun cl => !cl.fixed).map Cell.placedWidth).sum
-        ≤ (c.computeRows.map fun r => r.rect.width).sum - (c.computeRows.length : Int) * W)) →
-    ∃ c', legalizeWith rnd p c = .ok c'
+/-- `Circuit::legalize` seen as the C++ sees it — a procedure on the circuit object: the object
+after the call and the exception thrown, if any.  (`DetailedPlacer::legalize` works on a separate
+`Legalizer`; the only write to the circuit is `exportPlacement`, evaluated after `run` returned.) -/
+def legalizeInPlace (rnd : Rat → Rat) (p : Params) (c : Circuit) : Circuit × Option Err :=
+  match legalizeWith rnd p c with
+  | .ok c' => (c', none)
+  | .error e => (c, some e)
 
-/-- **Trivial success, local step (partial).**  `evaluatePlacement` accepts every segment with
-enough remaining space for a cell without row restriction (polarity ANY, valid orientation): the
-only refusals are lack of space and an INVALID orientation.
+/-- **A failed legalization leaves the circuit unchanged** (shared with C10).  If the call fails,
+the error was raised by the parameter check or by `Legalizer::run` (Tetris, Abacus and its `check()`,
+`checkAllPlaced`) — both before `exportPlacement`, the only place where a modified circuit is
+built — so the circuit object after the call is the input, exactly. -/
+theorem failed_legalize_unchanged (rnd : Rat → Rat) (p : Params) (c : Circuit) (e : Err)
+    (h : legalizeWith rnd p c = .error e) :
+    legalizeInPlace rnd p c = (c, some e) ∧
+    ((p.check = false ∧ e = .params) ∨ (p.check = true ∧ run rnd p (fromCircuit c) = .error e)) := by
+  refine ⟨by simp [legalizeInPlace, h], ?_⟩
+  unfold legalizeWith at h
+  by_cases hc : p.check = true
+  · right
+    refine ⟨hc, ?_⟩
+    simp only [hc, Bool.not_true, Bool.false_eq_true, if_false] at h
+    cases hr : run rnd p (fromCircuit c) with
+    | error e' => rw [hr] at h; simp only [Except.error.injEq] at h; rw [h]
+    | ok b => rw [hr] at h; simp at h
+  · left
+    have hc' : p.check = false := by simpa using hc
+    simp only [hc', Bool.not_false, if_true, Except.error.injEq] at h
+    exact ⟨hc', h.symm⟩
 
-Missing for `legalize_trivial_success_full_statement`: the pigeonhole argument (total remaining
-space ≥ #segments·maxW implies some segment has `remainingSpace ≥ w`), that the early exit of
-`tryPlace` only triggers after a feasible row was found, that `RowLegalizer::push` keeps the
-placement inside the segment (`C12.rowleg_feasible`) so that `check()` does not throw, and the
-plumbing.  Supported by the harness' trivial-success oracle (measured in evidence), not by proof. -/
-theorem legalize_trivial_success_partial (rows : List Row) (legs : List RowLeg.State) (c : LCell) (row : Nat)
+/-- non-vacuity: an overfull circuit (three cells of width 4 in one row of width 10) fails with the
+`checkAllPlaced` error and is left as it was -/
+example : legalizeInPlace f32 LegacyLegalize.defaultParams
+    ⟨[⟨4, 2, 0, 0, .N, false, false, .ANY⟩, ⟨4, 2, 1, 0, .N, false, false, .ANY⟩, ⟨4, 2, 2, 0, .N, false, false, .ANY⟩],
+     [], [⟨⟨0, 10, 0, 2⟩, .N⟩]⟩ =
+    (⟨[⟨4, 2, 0, 0, .N, false, false, .ANY⟩, ⟨4, 2, 1, 0, .N, false, false, .ANY⟩, ⟨4, 2, 2, 0, .N, false, false, .ANY⟩],
+      [], [⟨⟨0, 10, 0, 2⟩, .N⟩]⟩, some .notAllPlaced) := by decide +kernel
+
+/-! ### trivial success (Proofs/LegalizeTrivial{Loop,Check,Top}.lean) -/
+
+-- the helper files use the domain as first spelled out (`DomC`, implied by `Dom`) and a verbatim copy of `Legal`
+example : Legal = LegalC := rfl
+
+/-- **C01, third clause (full): legalization never fails when success is trivial.**  For every
+circuit of the domain whose movable cells are all one row high, without row restriction (polarity
+ANY) and with a valid orientation, every rounding of the ordering key and all parameters accepted
+by `check`: if `W` bounds the placed widths of the movable cells (in particular `W` = the maximum
+width) and their total width is at most the total width of the free row segments (`computeRows`)
+less `W` per segment, then `legalize` returns normally.
+
+Proof (Proofs/LegalizeTrivial*.lean): the Tetris pass is empty and `remainingRows` are the free
+segments themselves; pigeonhole on `remainingSpace`: before every `placeCell` the segments' remaining
+spaces sum to at least `#segments·W + w`, so one has room; `evaluatePlacement` accepts every segment
+with room (`evaluatePlacement_accepts_room`); the early exit of `tryPlace` needs `bestRow != -1`, so
+until a row has been found every row is visited, hence one is found and it was accepted; pushes
+that fit keep every `RowLegalizer` feasible (C12: inside the segment, in order), the index lists
+`rowToCells_` are duplicate-free, so `AbacusLegalizer::check` passes and `checkAllPlaced` finds every
+cell placed. -/
+theorem legalize_trivial_success (rnd : Rat → Rat) (p : Params) (c : Circuit) (hp : p.check = true) (hd : Dom c)
+    (hu : ∀ cl ∈ c.cells, cl.fixed = false →
+      cl.pol = Polarity.ANY ∧ cl.orient ≠ Orient.INVALID ∧ Circuit.rowHeight c = some cl.placedHeight)
+    (W : Int) (hW : ∀ cl ∈ c.cells, cl.fixed = false → cl.placedWidth ≤ W)
+    (hsum : ((c.cells.filter fun cl => !cl.fixed).map Cell.placedWidth).sum
+      ≤ (c.computeRows.map fun r => r.rect.width).sum - (c.computeRows.length : Int) * W) :
+    ∃ c', legalizeWith rnd p c = .ok c' :=
+  legalizeWith_trivial rnd p c hp (domL_spelled c hd) hu W hW hsum
+
+/-- … and what it returns is legal (`legalize_legal`) -/
+theorem legalize_trivial_success_legal (rnd : Rat → Rat) (p : Params) (c : Circuit) (hp : p.check = true) (hd : Dom c)
+    (hu : ∀ cl ∈ c.cells, cl.fixed = false →
+      cl.pol = Polarity.ANY ∧ cl.orient ≠ Orient.INVALID ∧ Circuit.rowHeight c = some cl.placedHeight)
+    (W : Int) (hW : ∀ cl ∈ c.cells, cl.fixed = false → cl.placedWidth ≤ W)
+    (hsum : ((c.cells.filter fun cl => !cl.fixed).map Cell.placedWidth).sum
+      ≤ (c.computeRows.map fun r => r.rect.width).sum - (c.computeRows.length : Int) * W) :
+    ∃ c', legalizeWith rnd p c = .ok c' ∧ Legal c' := by
+  obtain ⟨c', h⟩ := legalize_trivial_success rnd p c hp hd hu W hW hsum
+  exact ⟨c', h, legalize_legal rnd p c c' hd h⟩
+
+/-- non-vacuity of `legalize_trivial_success`: three segments ([0,4], [5,10], [0,10]: total 19), three
+overlapping cells of widths 2, 2, 3 (W = 3): 7 ≤ 19 − 3·3 -/
+def trivialCircuit : Circuit :=
+  { cells := [⟨2, 2, 0, 0, .N, false, false, .ANY⟩, ⟨2, 2, 0, 0, .FN, false, false, .ANY⟩,
+              ⟨3, 2, 1, 0, .S, false, false, .ANY⟩, ⟨1, 2, 4, 0, .N, true, true, .ANY⟩],
+    nets := [],
+    rows := [⟨⟨0, 10, 0, 2⟩, .N⟩, ⟨⟨0, 10, 2, 4⟩, .FS⟩] }
+
+example : LegacyLegalize.defaultParams.check = true ∧ Dom trivialCircuit ∧
+    (∀ cl ∈ trivialCircuit.cells, cl.fixed = false →
+      cl.pol = Polarity.ANY ∧ cl.orient ≠ Orient.INVALID ∧ Circuit.rowHeight trivialCircuit = some cl.placedHeight) ∧
+    (∀ cl ∈ trivialCircuit.cells, cl.fixed = false → cl.placedWidth ≤ 3) ∧
+    ((trivialCircuit.cells.filter fun cl => !cl.fixed).map Cell.placedWidth).sum
+      ≤ (trivialCircuit.computeRows.map fun r => r.rect.width).sum - (trivialCircuit.computeRows.length : Int) * 3 := by
+  decide +kernel
+
+/-- **Trivial success, local step.**  `evaluatePlacement` accepts every segment with enough
+remaining space for a cell without row restriction (polarity ANY, valid orientation): the only
+refusals are lack of space and an INVALID orientation. -/
+theorem evaluatePlacement_accepts_room (rows : List Row) (legs : List RowLeg.State) (c : LCell) (row : Nat)
     (hp : c.pol = Polarity.ANY) (ho : c.torient ≠ Orient.INVALID) (hs : c.w ≤ (legAt legs row).remaining) :
     canEval rows legs c row = true := by
   have : ¬ ((legAt legs row).remaining < c.w) := by omega
